@@ -256,6 +256,8 @@ fn key_alphabet(u: i64, dmax: i64, with_get: bool, with_export: bool) -> Vec<Raw
         for d in 0..=dmax {
             a.push(RawOp::new(K_INS, &[k, d]));
         }
+        // an entry that never expires (expiration == the type's maximum)
+        a.push(RawOp::new(K_INS, &[k, 500_000]));
     }
     for pr in 0..=u + 1 {
         a.push(RawOp::new(K_FL, &[pr]));
@@ -276,6 +278,14 @@ fn key_alphabet(u: i64, dmax: i64, with_get: bool, with_export: bool) -> Vec<Raw
         }
     }
     a
+}
+
+/// the same universe with the clock starting `tmax` ticks before the end of the expiration type, so
+/// that the closure includes time == E::max_expiration() and expirations saturating at it
+fn key_enum_edge(prop: &str, coll: &str, u: i64, dmax: i64, tmax: i64, with_get: bool, with_export: bool, max_states: usize) -> EnumSpec {
+    let mut e = key_enum(prop, coll, u, dmax, tmax, with_get, with_export, max_states);
+    e.base.set("clock0", i32::MAX as i64 - tmax);
+    e
 }
 
 fn key_enum(prop: &str, coll: &str, u: i64, dmax: i64, tmax: i64, with_get: bool, with_export: bool, max_states: usize) -> EnumSpec {
@@ -307,6 +317,29 @@ fn ord_enum(prop: &str, family: &str, coll: &str, val: &str, u: i64, handles: bo
     EnumSpec { base, alphabet: a, battery, max_states }
 }
 
+/// Small segment-tree universe closed to a fixpoint: a 17-point domain (bucket == point), a handful
+/// of representative ranges, expirations {clock, clock+1, never}, at most `max_values` values
+/// stored at once, fully and partially consumed queries, clock advance, clear.
+fn seg_enum(prop: &str, max_values: i64, tmax: i64, edge: bool, max_states: usize) -> EnumSpec {
+    let mut base = Case::new(prop, "seg");
+    base.set("lo", 0).set("len", 17).set("rtype", "i32").set("max_values", max_values).set("Tmax", tmax);
+    if edge {
+        base.set("clock0", i32::MAX as i64 - tmax);
+    }
+    let ranges: [(i64, i64); 7] = [(0, 0), (0, 16), (3, 8), (8, 8), (5, 12), (16, 16), (8, 15)];
+    let mut a = Vec::new();
+    for (x, y) in ranges {
+        for d in [1i64, 2, 9] {
+            a.push(RawOp::new(S_INS, &[x, 0, y, 0, d]));
+        }
+        a.push(RawOp::new(S_QUERY, &[x, 0, y, 0, 0]));
+        a.push(RawOp::new(S_QUERY, &[x, 0, y, 0, 1]));
+    }
+    a.push(RawOp::new(S_ADV, &[1]));
+    a.push(RawOp::new(S_CLEAR, &[0]));
+    EnumSpec { base, alphabet: a, battery: vec![], max_states }
+}
+
 // ------------------------------------------------------------------------------------------------
 // job tables
 
@@ -331,7 +364,7 @@ pub fn jobs(pn: u32, tier: Tier) -> Vec<Job> {
     // scale: number of random cases
     // fixed work per tier (never a time limit); VERIF_SCALE multiplies the random-case budgets
     let scale: usize = std::env::var("VERIF_SCALE").ok().and_then(|s| s.parse().ok()).unwrap_or(8);
-    let n = |quick: usize, thorough: usize| if q { quick * scale } else { thorough * scale * 2 };
+    let n = |quick: usize, thorough: usize| if q { quick * scale } else { thorough * scale };
     let id: &'static str = Box::leak(crate::run::prop_id(pn).into_boxed_str());
     let mut v = Vec::new();
     match pn {
@@ -347,7 +380,8 @@ pub fn jobs(pn: u32, tier: Tier) -> Vec<Job> {
                 m.snap = false;
                 v.push(job("key-tree-large", random(key_cases(id, m), 1_500), Rule::default(), &[]));
             }
-            v.push(job("key-tree-enum", JobKind::Enumerate { spec: if q { key_enum(id, "tree", 3, 2, 3, false, false, 400_000) } else { key_enum(id, "tree", 4, 2, 3, false, false, 1_500_000) } }, rule, &[]));
+            v.push(job("key-tree-enum", JobKind::Enumerate { spec: if q { key_enum(id, "tree", 3, 2, 3, false, false, 400_000) } else { key_enum(id, "tree", 4, 2, 3, false, false, 1_500_000) } }, rule.clone(), &[]));
+            v.push(job("key-tree-enum-last-ticks", JobKind::Enumerate { spec: key_enum_edge(id, "tree", 3, 2, 2, false, false, 1_500_000) }, rule, &[]));
         }
         2 => {
             let rule = Rule::all("history with >=1 removal of a two-children node and >=1 removal of a black leaf (sentinel path)", &["rm_two_children", "rm_black_leaf"]);
@@ -385,6 +419,8 @@ pub fn jobs(pn: u32, tier: Tier) -> Vec<Job> {
             v.push(job("seg-long-histories-small-domains", random(seg_cases(id, SegMix { w: [50, 24, 6, 1, 2, 12, 8], len: 100..=600, thorough: !q, only_small: true }), n(300, 8_000)), rule.clone(), &["chunk_ge_17_entries"]));
             v.push(job("seg-insert-bursts", random(seg_cases(id, SegMix { w: [80, 3, 5, 0, 1, 12, 1], len: 200..=700, thorough: !q, only_small: false }), n(300, 8_000)), rule.clone(), &["query_ge_65_expired_copies"]));
             v.push(job("seg-hot-spots", random(seg_hot_cases(id, [14, 4, 2, 0, 1, 3, 1], 150..=700, false, None), n(400, 10_000)), rule.clone(), &["chunk_ge_65_entries"]));
+            v.push(job("seg-17-enum", JobKind::Enumerate { spec: seg_enum(id, if q { 2 } else { 3 }, 2, false, 3_000_000) }, Rule::any("transition with an expired copy stored or a dropped iterator", &["query_with_expired_copies", "iterator_dropped_midway"]), &[]));
+            v.push(job("seg-17-enum-last-ticks", JobKind::Enumerate { spec: seg_enum(id, 2, 2, true, 3_000_000) }, Rule::any("transition with an expired copy stored or a dropped iterator", &["query_with_expired_copies", "iterator_dropped_midway"]), &[]));
             v.push(job("seg-32-all-pairs-x-3-times", JobKind::Fixed { cases: seg_pair_cases(id, true), stop_on_first: false }, Rule::any("every (insert range, query range) pair over the 32-point domain at t in {exp-1, exp, exp+1}", &["query_t_eq_exp"]), &[]));
         }
         4 | 5 => {
@@ -412,7 +448,8 @@ pub fn jobs(pn: u32, tier: Tier) -> Vec<Job> {
             v.push(job("key-tree-medium", random(key_cases(id, key_mix("tree", &[16, 64], 30, 6, [34, 4, 4, 4, 34, 16, 1, 1], 0..=200, None)), n(4_000, 100_000)), rule.clone(), &req));
             v.push(job("key-tree-big", random(key_cases(id, key_mix("tree", &[300, 3000], 1500, 30, [50, 3, 3, 3, 24, 16, 0, 1], 300..=1500, None)), n(150, 4_000)), rule.clone(), &["height_ge_6", "get_depth_ge_3"]));
             v.push(job("key-tree-big-clear-big", random(key_clear_cases_sized(id, "tree", vec![300, 3000], 1500, 30, 100..=500), n(100, 3_000)), rule.clone(), &[]));
-            v.push(job("key-tree-enum", JobKind::Enumerate { spec: if q { key_enum(id, "tree", 3, 2, 3, true, false, 400_000) } else { key_enum(id, "tree", 4, 2, 3, true, false, 1_500_000) } }, rule, &[]));
+            v.push(job("key-tree-enum", JobKind::Enumerate { spec: if q { key_enum(id, "tree", 3, 2, 3, true, false, 400_000) } else { key_enum(id, "tree", 4, 2, 3, true, false, 1_500_000) } }, rule.clone(), &[]));
+            v.push(job("key-tree-enum-last-ticks", JobKind::Enumerate { spec: key_enum_edge(id, "tree", 3, 2, 2, true, false, 1_500_000) }, rule, &[]));
         }
         7 => {
             let rule = Rule::all("export with >=1 entry expired at t still physically stored and >=1 free slot that was used before", &["export_expired_and_after_free"]);
@@ -421,7 +458,8 @@ pub fn jobs(pn: u32, tier: Tier) -> Vec<Job> {
             v.push(job("key-export-medium", random(key_cases(id, key_mix("tree", &[16, 64], 20, 5, [40, 6, 6, 6, 6, 20, 1, 1], 0..=200, Some(0..=24))), n(5_000, 120_000)), rule.clone(), &req));
             v.push(job("key-export-big", random(key_cases(id, key_mix("tree", &[300, 3000], 1500, 30, [50, 5, 5, 5, 5, 16, 0, 1], 300..=1500, Some(0..=1600))), n(150, 4_000)), rule.clone(), &["height_ge_6", "export_after_free"]));
             v.push(job("key-export-big-clear-big", random(key_clear_cases_sized(id, "tree", vec![300, 3000], 1500, 30, 100..=500), n(100, 3_000)), rule.clone(), &[]));
-            v.push(job("key-export-enum", JobKind::Enumerate { spec: if q { key_enum(id, "tree", 3, 2, 3, true, true, 400_000) } else { key_enum(id, "tree", 4, 2, 3, true, true, 1_500_000) } }, rule, &[]));
+            v.push(job("key-export-enum", JobKind::Enumerate { spec: if q { key_enum(id, "tree", 3, 2, 3, true, true, 400_000) } else { key_enum(id, "tree", 4, 2, 3, true, true, 1_500_000) } }, rule.clone(), &[]));
+            v.push(job("key-export-enum-last-ticks", JobKind::Enumerate { spec: key_enum_edge(id, "tree", 3, 2, 2, true, true, 1_500_000) }, rule, &[]));
         }
         8 => {
             let rule = Rule::any("a non-empty handle to a non-root node used for write or delete in a tree of >=3 entries", &["hwrite_nonroot_ge_3", "hdel_nonroot_ge_3"]);
@@ -463,6 +501,7 @@ pub fn jobs(pn: u32, tier: Tier) -> Vec<Job> {
             v.push(job("seg", random(seg_cases(id, SegMix { w: [30, 30, 12, 2, 4, 10, 10], len: 0..=60, thorough: !q, only_small: false }), n(8_000, 200_000)), rule.clone(), &[]));
             v.push(job("seg-long", random(seg_cases(id, SegMix { w: [50, 20, 8, 1, 3, 12, 6], len: 100..=600, thorough: !q, only_small: false }), n(300, 8_000)), rule.clone(), &[]));
             v.push(job("seg-hot-spots", random(seg_hot_cases(id, [14, 4, 2, 0, 1, 3, 1], 150..=700, false, None), n(300, 8_000)), rule.clone(), &[]));
+            v.push(job("seg-17-enum", JobKind::Enumerate { spec: seg_enum(id, 2, 2, false, 3_000_000) }, rule.clone(), &[]));
             v.push(job("map-tree-insertion-runs", random(ord_runs_cases(id, "map", "tree", vec!["u64", "string"], [0, 4, 2, 0, 0, 2, 1, 2, 0, 0]), n(400, 10_000)), rule.clone(), &[]));
             v.push(job("set-tree-insertion-runs", random(ord_runs_cases(id, "set", "tree", vec!["u64", "bare"], [0, 4, 2, 0, 0, 2, 1, 2, 4, 1]), n(400, 10_000)), rule.clone(), &[]));
             v.push(job("set-list-insertion-runs", random(ord_runs_cases(id, "set", "list", vec!["u64"], [0, 4, 2, 0, 0, 2, 1, 2, 4, 1]), n(200, 5_000)), rule.clone(), &[]));
@@ -525,7 +564,8 @@ pub fn jobs(pn: u32, tier: Tier) -> Vec<Job> {
             v.push(job("key-list-tiny", random(key_cases(id, key_mix("list", &[3, 4, 6], 4, 2, [30, 9, 9, 9, 12, 20, 2, 3], 0..=60, Some(0..=5))), n(16_000, 400_000)), krule.clone(), &["q_t_eq_exp", "reinsert_expired_key", "ins_exp_eq_time"]));
             v.push(job("key-list-medium", random(key_cases(id, key_mix("list", &[16, 64], 30, 6, [34, 8, 8, 8, 10, 18, 1, 2], 0..=200, Some(0..=24))), n(3_000, 80_000)), krule.clone(), &[]));
             v.push(job("key-list-big", random(key_cases(id, key_mix("list", &[300, 3000], 1500, 30, [50, 6, 6, 6, 8, 16, 0, 1], 300..=1500, Some(0..=600))), n(120, 3_000)), krule.clone(), &[]));
-            v.push(job("key-list-enum", JobKind::Enumerate { spec: if q { key_enum(id, "list", 3, 2, 3, true, true, 400_000) } else { key_enum(id, "list", 4, 2, 3, true, true, 1_500_000) } }, krule, &[]));
+            v.push(job("key-list-enum", JobKind::Enumerate { spec: if q { key_enum(id, "list", 3, 2, 3, true, true, 400_000) } else { key_enum(id, "list", 4, 2, 3, true, true, 1_500_000) } }, krule.clone(), &[]));
+            v.push(job("key-list-enum-last-ticks", JobKind::Enumerate { spec: key_enum_edge(id, "list", 3, 2, 2, true, true, 1_500_000) }, krule, &[]));
             let mrule = Rule::any("a handle used for write or delete, or a lookup after a deletion", &["handle_delete", "hprobe_gap", "lookup_after_removal"]);
             let mw = [34, 16, 14, 2, 1, 14, 8, 8, 0, 0];
             v.push(job("map-list", random(ord_cases(id, ord_mix("map", "list", &["u64", "string", "wide"], &[4, 8, 16, 64], mw, 0..=120, 1)), n(8_000, 200_000)), mrule.clone(), &["hprobe_below_min", "hprobe_above_max", "delete_absent"]));
@@ -557,6 +597,8 @@ pub fn jobs(pn: u32, tier: Tier) -> Vec<Job> {
             v.push(job("seg-long-histories", random(seg_cases(id, SegMix { w: [50, 14, 8, 1, 8, 12, 4], len: 100..=600, thorough: !q, only_small: false }), n(400, 10_000)), Rule::all("a fully consumed query issued while >=1 expired copy was physically stored", &["c16_nontrivial"]), &["chunk_ge_17_entries"]));
             v.push(job("seg-insert-bursts", random(seg_cases(id, SegMix { w: [80, 3, 5, 0, 2, 12, 1], len: 200..=700, thorough: !q, only_small: false }), n(300, 8_000)), Rule::all("a fully consumed query issued while >=1 expired copy was physically stored", &["c16_nontrivial"]), &["query_ge_65_expired_copies"]));
             v.push(job("seg-hot-spots", random(seg_hot_cases(id, [14, 3, 2, 0, 2, 3, 1], 150..=700, false, None), n(400, 10_000)), Rule::all("a fully consumed query issued while >=1 expired copy was physically stored", &["c16_nontrivial"]), &["chunk_ge_65_entries"]));
+            v.push(job("seg-17-enum", JobKind::Enumerate { spec: seg_enum(id, if q { 2 } else { 3 }, 2, false, 3_000_000) }, Rule::all("a fully consumed query issued while >=1 expired copy was physically stored", &["c16_nontrivial"]), &[]));
+            v.push(job("seg-17-enum-last-ticks", JobKind::Enumerate { spec: seg_enum(id, 2, 2, true, 3_000_000) }, Rule::all("a fully consumed query issued while >=1 expired copy was physically stored", &["c16_nontrivial"]), &[]));
         }
         17 => {
             let rule = Rule::all("an insertion during which the parent link of a held entry changed (rotation around a designated entry)", &["rotation_around_held_entry"]);
@@ -607,7 +649,9 @@ pub fn jobs(pn: u32, tier: Tier) -> Vec<Job> {
             v.push(job("key-tree-big-clear-big", random(key_clear_cases_sized(id, "tree", vec![300, 3000], 1500, 30, 100..=500), n(80, 2_000)), rule.clone(), &[]));
             v.push(job("key-list-big", random(key_cases(id, key_mix("list", &[300, 3000], 1500, 30, [50, 6, 6, 6, 8, 16, 0, 1], 300..=1500, None)), n(80, 2_000)), rule.clone(), &[]));
             v.push(job("key-tree-enum", JobKind::Enumerate { spec: key_enum(id, "tree", 3, 2, if q { 3 } else { 3 }, true, false, 1_500_000) }, rule.clone(), &[]));
-            v.push(job("key-list-enum", JobKind::Enumerate { spec: key_enum(id, "list", 3, 2, 3, true, false, 1_500_000) }, rule, &[]));
+            v.push(job("key-list-enum", JobKind::Enumerate { spec: key_enum(id, "list", 3, 2, 3, true, false, 1_500_000) }, rule.clone(), &[]));
+            v.push(job("key-tree-enum-last-ticks", JobKind::Enumerate { spec: key_enum_edge(id, "tree", 3, 2, 2, true, false, 1_500_000) }, rule.clone(), &[]));
+            v.push(job("key-list-enum-last-ticks", JobKind::Enumerate { spec: key_enum_edge(id, "list", 3, 2, 2, true, false, 1_500_000) }, rule, &[]));
         }
         _ => {}
     }
